@@ -7,7 +7,7 @@ D="$(cd "$1" && pwd)"; N="$(basename "$D")"
 WT="/tmp/wt-confirm-$N"
 git -C /repo worktree remove --force "$WT" >/dev/null 2>&1
 git -C /repo worktree add --detach "$WT" HEAD >/dev/null 2>&1 || { echo "worktree failed"; exit 2; }
-cd "$WT"; export GMSSL_BIN="$WT/build/bin/gmssl"
+cd "$WT"; export GMSSL_BIN="$WT/build/bin/gmssl" GMSSL_WORKTREE="$WT"
 if ! git apply "$D/patch.diff"; then echo "$N: NOT-CONFIRMED patch does not apply to HEAD"; git -C /repo worktree remove --force "$WT"; exit 1; fi
 cmake -G Ninja -B build >/dev/null 2>&1 && cmake --build build -j16 >/dev/null 2>&1 || { echo "$N: NOT-CONFIRMED build fails with patch"; git -C /repo worktree remove --force "$WT"; exit 1; }
 TESTS=$(cd build && ctest -j8 --timeout 900 2>&1)
@@ -16,11 +16,11 @@ DEMO="$D/demo.c"
 BUILD_DEMO="gcc -I$WT/include $DEMO -o $WT/demo -L$WT/build/bin -lgmssl -lpthread -Wl,-rpath,$WT/build/bin"
 [ -f "$D/build_demo.sh" ] && BUILD_DEMO="sh $D/build_demo.sh $WT"
 $BUILD_DEMO >/dev/null 2>&1 || { echo "$N: NOT-CONFIRMED demo does not build"; git -C /repo worktree remove --force "$WT"; exit 1; }
-( cd "$WT" && timeout 300 ./demo >/tmp/demo_with_$N.log 2>&1 ); RC_WITH=$?
+( cd "$WT" && timeout 600 ./demo "$WT" >/tmp/demo_with_$N.log 2>&1 ); RC_WITH=$?
 git apply -R "$D/patch.diff"
 cmake --build build -j16 >/dev/null 2>&1
 $BUILD_DEMO >/dev/null 2>&1
-( cd "$WT" && timeout 300 ./demo >/tmp/demo_without_$N.log 2>&1 ); RC_WITHOUT=$?
+( cd "$WT" && timeout 600 ./demo "$WT" >/tmp/demo_without_$N.log 2>&1 ); RC_WITHOUT=$?
 cd /
 git -C /repo worktree remove --force "$WT" >/dev/null 2>&1
 echo "$N: tests passed with patch=$NPASS demo rc with patch=$RC_WITH without=$RC_WITHOUT"
